@@ -264,6 +264,320 @@ theorem vals_push {ρ} (ps : List String) (vals : List ρ) (st : Stack ρ) (h : 
   rw [List.map_reverse]; congr 1
   exact List.map_snd_zip (by omega)
 
+
+/-! ### MetaData: extraction and placement -/
+
+theorem stripL_length (qs : List Q) : (stripL qs).length = qs.length := by
+  induction qs with
+  | nil => simp [stripL]
+  | cons q qs ih => simp [stripL, ih]
+
+theorem strip_app_md (f : Q) (src d : Q) (rest : List Q) (h : isMdHead f = true) :
+    strip (.app f (src :: d :: rest)) = ((strip src).1, d :: (strip src).2) := by
+  simp [strip, stripL, h]
+
+theorem strip_app_generic (f : Q) (as : List Q) (h : isMdHead f = false ∨ as.length < 2) :
+    strip (.app f as) = (.app (strip f).1 ((stripL as).map (·.1)), (strip f).2 ++ (stripL as).flatMap (·.2)) := by
+  rcases h with h | h
+  · simp [strip, h]
+  · match as, h with
+    | [], _ => cases hf : isMdHead f <;> simp [strip, stripL]
+    | [a], _ => cases hf : isMdHead f <;> simp [strip, stripL]
+    | _ :: _ :: _, h => simp at h; omega
+
+/-- what attaching one MetaData call does to the result of `strip` -/
+def AttachSpec (m : Q) (q q1 : Q) : Prop :=
+  (strip q1).1 = (strip q).1 ∧ ∃ l r, (strip q).2 = l ++ r ∧ (strip q1).2 = l ++ m :: r
+
+def AttachSpecL (m : Q) (qs qs1 : List Q) : Prop :=
+  qs1.length = qs.length ∧ (stripL qs1).map (·.1) = (stripL qs).map (·.1) ∧
+    ∃ l r, (stripL qs).flatMap (·.2) = l ++ r ∧ (stripL qs1).flatMap (·.2) = l ++ m :: r
+
+theorem attachL_spec (m : Q) (p : List Step)
+    (ih : ∀ q q1, attachAt m p q = some q1 → validPos p q = true → AttachSpec m q q1) :
+    ∀ (qs : List Q) (i : Nat) (qs1 : List Q), attachAtL m i p qs = some qs1 → validPosL i p qs = true →
+      AttachSpecL m qs qs1 := by
+  intro qs
+  induction qs with
+  | nil => intro i qs1 h; simp [attachAtL] at h
+  | cons q qs ihq =>
+    intro i qs1 h hv
+    cases i with
+    | zero =>
+      simp only [attachAtL, Option.map_eq_some_iff] at h
+      obtain ⟨q1, hq1, rfl⟩ := h
+      simp only [validPosL] at hv
+      obtain ⟨h1, l, r, h2, h3⟩ := ih q q1 hq1 hv
+      refine ⟨by simp, by simp [stripL, h1], l, r ++ (stripL qs).flatMap (·.2), ?_, ?_⟩
+      · simp [stripL, h2]
+      · simp [stripL, h3]
+    | succ i =>
+      simp only [attachAtL, Option.map_eq_some_iff] at h
+      obtain ⟨qs1', hqs1, rfl⟩ := h
+      simp only [validPosL] at hv
+      obtain ⟨hl, h1, l, r, h2, h3⟩ := ihq i qs1' hqs1 hv
+      refine ⟨by simp [hl], by simp [stripL, h1], (strip q).2 ++ l, r, ?_, ?_⟩
+      · simp [stripL, h2]
+      · simp [stripL, h3]
+
+theorem isMdHead_attach (m : Q) (p : List Step) (f f1 : Q) (h : attachAt m p f = some f1) : isMdHead f1 = false := by
+  cases p with
+  | nil => simp [attachAt] at h; subst h; simp [wrapMd, isMdHead]
+  | cons st p =>
+    cases f with
+    | var x => cases st <;> simp [attachAt] at h
+    | lit c => cases st <;> simp [attachAt] at h
+    | lam ps b =>
+      cases st <;> simp [attachAt] at h
+      obtain ⟨b1, _, rfl⟩ := h; simp [isMdHead]
+    | app g as =>
+      cases st <;> simp [attachAt] at h
+      · obtain ⟨g1, _, rfl⟩ := h; simp [isMdHead]
+      · obtain ⟨as1, _, rfl⟩ := h; simp [isMdHead]
+    | node t ks =>
+      cases st <;> simp [attachAt] at h
+      obtain ⟨ks1, _, rfl⟩ := h; simp [isMdHead]
+
+theorem attach_spec (m : Q) : ∀ (p : List Step) (q q1 : Q),
+    attachAt m p q = some q1 → validPos p q = true → AttachSpec m q q1 := by
+  intro p
+  induction p with
+  | nil =>
+    intro q q1 h _
+    simp only [attachAt, Option.some.injEq] at h
+    subst h
+    refine ⟨?_, [], (strip q).2, by simp, ?_⟩
+    · simp [wrapMd, strip_app_md, isMdHead]
+    · simp [wrapMd, strip_app_md, isMdHead]
+  | cons st p ih =>
+    intro q q1 h hv
+    cases q with
+    | var x => cases st <;> simp [attachAt] at h
+    | lit c => cases st <;> simp [attachAt] at h
+    | lam ps b =>
+      cases st <;> simp [attachAt] at h
+      obtain ⟨b1, hb1, rfl⟩ := h
+      simp only [validPos] at hv
+      obtain ⟨h1, l, r, h2, h3⟩ := ih b b1 hb1 hv
+      exact ⟨by simp [strip, h1], l, r, by simp [strip, h2], by simp [strip, h3]⟩
+    | node t ks =>
+      cases st <;> simp [attachAt] at h
+      rename_i i
+      obtain ⟨ks1, hks1, rfl⟩ := h
+      simp only [validPos] at hv
+      obtain ⟨_, h1, l, r, h2, h3⟩ := attachL_spec m p ih ks i ks1 hks1 hv
+      exact ⟨by simp [strip, h1], l, r, by simp [strip, h2], by simp [strip, h3]⟩
+    | app f as =>
+      cases st with
+      | body => simp [attachAt] at h
+      | kid i => simp [attachAt] at h
+      | fn =>
+        simp only [attachAt, Option.map_eq_some_iff] at h
+        obtain ⟨f1, hf1, rfl⟩ := h
+        simp only [validPos, Bool.and_eq_true, Bool.not_eq_true', Bool.and_eq_false_iff, decide_eq_false_iff_not] at hv
+        obtain ⟨hg, hv⟩ := hv
+        have hgen : isMdHead f = false ∨ as.length < 2 := by
+          rcases hg with hg | hg
+          · exact Or.inl hg
+          · exact Or.inr (by omega)
+        obtain ⟨h1, l, r, h2, h3⟩ := ih f f1 hf1 hv
+        unfold AttachSpec
+        rw [strip_app_generic f1 as (Or.inl (isMdHead_attach m p f f1 hf1)), strip_app_generic f as hgen]
+        exact ⟨by simp [h1], l, r ++ (stripL as).flatMap (·.2), by simp [h2], by simp [h3]⟩
+      | arg i =>
+        simp only [attachAt, Option.map_eq_some_iff] at h
+        obtain ⟨as1, has1, rfl⟩ := h
+        simp only [validPos, Bool.and_eq_true, Bool.or_eq_true, Bool.not_eq_true', Bool.and_eq_false_iff,
+          decide_eq_false_iff_not, beq_iff_eq] at hv
+        obtain ⟨hg, hv⟩ := hv
+        by_cases hmd : isMdHead f = true ∧ 2 ≤ as.length
+        · -- an existing MetaData call: only its first argument may be entered
+          obtain ⟨hm1, hm2⟩ := hmd
+          have hi : i = 0 := by
+            rcases hg with (hg | hg) | hg
+            · simp [hm1] at hg
+            · omega
+            · exact hg
+          subst hi
+          match as, hm2 with
+          | src :: d :: rest, _ =>
+            simp only [attachAtL, Option.map_eq_some_iff] at has1
+            obtain ⟨src1, hs1, rfl⟩ := has1
+            simp only [validPosL] at hv
+            obtain ⟨h1, l, r, h2, h3⟩ := ih src src1 hs1 hv
+            unfold AttachSpec
+            rw [strip_app_md f src1 d rest hm1, strip_app_md f src d rest hm1]
+            exact ⟨h1, d :: l, r, by simp [h2], by simp [h3]⟩
+        · have hgen : isMdHead f = false ∨ as.length < 2 := by
+            by_cases hm1 : isMdHead f = true
+            · exact Or.inr (Nat.lt_of_not_le (fun h2 => hmd ⟨hm1, h2⟩))
+            · exact Or.inl (by simpa using hm1)
+          obtain ⟨hl, h1, l, r, h2, h3⟩ := attachL_spec m p ih as i as1 has1 hv
+          have hgen1 : isMdHead f = false ∨ as1.length < 2 := by
+            rcases hgen with h | h
+            · exact Or.inl h
+            · exact Or.inr (by omega)
+          unfold AttachSpec
+          rw [strip_app_generic f as1 hgen1, strip_app_generic f as hgen]
+          exact ⟨by simp [h1], (strip f).2 ++ l, r, by simp [h2], by simp [h3]⟩
+
+
+/-! ### `process_metadata`: order of commuting items -/
+
+def MdItem.comm (a b : MdItem) : Prop := a.commutes b = true ∧ b.commutes a = true
+
+theorem MdItem.comm_symm {a b : MdItem} (h : MdItem.comm a b) : MdItem.comm b a := ⟨h.2, h.1⟩
+
+theorem commutingAll_iff (l : List MdItem) : commutingAll l = true ↔ l.Pairwise MdItem.comm := by
+  induction l with
+  | nil => simp [commutingAll]
+  | cons a l ih =>
+    simp only [commutingAll, Bool.and_eq_true, List.all_eq_true, List.pairwise_cons, ih, MdItem.comm]
+
+theorem upd_comm (f : String → Option String) (k v k' v' : String) (h : k ≠ k') :
+    upd (upd f k v) k' v' = upd (upd f k' v') k v := by
+  funext x
+  simp only [upd]
+  by_cases h1 : x = k' <;> by_cases h2 : x = k <;> simp [h1, h2]
+  · exact absurd (h2.symm.trans h1) h
+  · intro e; exact absurd e.symm h
+  · intro e; exact absurd e h
+
+theorem procMd_cons (s : MdState) (a : MdItem) (l : List MdItem) :
+    procMd s (a :: l) = match a.step s with
+      | .ok s' => procMd s' l
+      | .error e => .error e := rfl
+
+/-- two commuting items can be processed in either order, from any state -/
+theorem step_swap (s : MdState) (a b : MdItem) (h : MdItem.comm a b) (rest : List MdItem) :
+    procMd s (a :: b :: rest) = procMd s (b :: a :: rest) := by
+  obtain ⟨h1, h2⟩ := h
+  by_cases hab : a = b
+  · subst hab; rfl
+  cases a <;> cases b <;> simp only [MdItem.commutes, Bool.or_eq_true, Bool.and_eq_true, bne_iff_ne, beq_iff_eq, ne_eq] at h1 h2
+    <;> simp only [procMd_cons, MdItem.step]
+  -- methodType / methodType
+  · rename_i k v k' v'
+    have hk : k ≠ k' := by
+      intro e; subst e
+      rcases h1 with h1 | h1
+      · exact h1 rfl
+      · subst h1; exact hab rfl
+    rw [upd_comm _ _ _ _ _ hk]
+  -- methodType / enum
+  · rename_i k v k' v'
+    cases s.enums k' <;> rfl
+  -- methodType / inject
+  · rename_i k v n w
+    cases hf : s.injects.find? (·.1 == n) with
+    | none => simp
+    | some b => by_cases hb : b.2 = w <;> simp [hb]
+  -- fn / fn
+  · rename_i k v k' v'
+    have hk : k ≠ k' := by
+      intro e; subst e
+      rcases h1 with h1 | h1
+      · exact h1 rfl
+      · subst h1; exact hab rfl
+    rw [upd_comm _ _ _ _ _ hk]
+  -- fn / enum
+  · rename_i k v k' v'
+    cases s.enums k' <;> rfl
+  -- fn / inject
+  · rename_i k v n w
+    cases hf : s.injects.find? (·.1 == n) with
+    | none => simp
+    | some b => by_cases hb : b.2 = w <;> simp [hb]
+  -- enum / methodType
+  · rename_i k v k' v'
+    cases s.enums k <;> rfl
+  -- enum / fn
+  · rename_i k v k' v'
+    cases s.enums k <;> rfl
+  -- enum / enum
+  · rename_i k v k' v'
+    have hk : k ≠ k' := by
+      intro e; subst e
+      rcases h1 with h1 | h1
+      · exact h1 rfl
+      · subst h1; exact hab rfl
+    cases e1 : s.enums k <;> cases e2 : s.enums k' <;> simp [upd, e1, e2, hk, Ne.symm hk]
+    rw [upd_comm _ _ _ _ _ hk]
+  -- enum / inject
+  · rename_i k v n w
+    cases hf : s.injects.find? (·.1 == n) with
+    | none => cases he : s.enums k <;> simp [hf, he]
+    | some b => by_cases hb : b.2 = w <;> cases he : s.enums k <;> simp [hf, hb, he]
+  -- enum / script
+  · rename_i k v n w
+    cases s.enums k <;> rfl
+  -- inject / methodType
+  · rename_i n w k v
+    cases hf : s.injects.find? (·.1 == n) with
+    | none => simp
+    | some b => by_cases hb : b.2 = w <;> simp [hb]
+  -- inject / fn
+  · rename_i n w k v
+    cases hf : s.injects.find? (·.1 == n) with
+    | none => simp
+    | some b => by_cases hb : b.2 = w <;> simp [hb]
+  -- inject / enum
+  · rename_i n w k v
+    cases hf : s.injects.find? (·.1 == n) with
+    | none => cases he : s.enums k <;> simp [hf, he]
+    | some b => by_cases hb : b.2 = w <;> cases he : s.enums k <;> simp [hf, hb, he]
+  -- inject / inject (equal items only)
+  · rename_i n w n' w'
+    exact absurd (by rw [h1.1, h1.2]) hab
+  -- inject / script
+  · rename_i n w n' w'
+    cases hf : s.injects.find? (·.1 == n) with
+    | none => simp
+    | some b => by_cases hb : b.2 = w <;> simp [hb]
+  -- inject / bad
+  · rename_i n w c
+    cases hf : s.injects.find? (·.1 == n) with
+    | none => simp
+    | some b => by_cases hb : b.2 = w <;> simp [hb, h1]
+  -- script / enum
+  · rename_i n w k v
+    cases s.enums k <;> rfl
+  -- script / inject
+  · rename_i n w n' w'
+    cases hf : s.injects.find? (·.1 == n') with
+    | none => simp
+    | some b => by_cases hb : b.2 = w' <;> simp [hb]
+  -- script / script (equal items only)
+  · rename_i n w n' w'
+    exact absurd (by rw [h1.1, h1.2]) hab
+  -- bad / inject
+  · rename_i c n w
+    cases hf : s.injects.find? (·.1 == n) with
+    | none => simp
+    | some b => by_cases hb : b.2 = w <;> simp [hb, h2]
+  -- bad / bad
+  · rename_i c c'
+    rw [h1]
+
+theorem procMd_perm {l l' : List MdItem} (hp : l.Perm l') :
+    l.Pairwise MdItem.comm → ∀ s, procMd s l = procMd s l' := by
+  induction hp with
+  | nil => intro _ _; rfl
+  | cons a _ ih =>
+    intro hc s
+    simp only [procMd_cons]
+    cases a.step s with
+    | error e => rfl
+    | ok s' => exact ih (List.pairwise_cons.1 hc).2 s'
+  | swap a b l =>
+    intro hc s
+    have hab : MdItem.comm b a := (List.pairwise_cons.1 hc).1 a (by simp)
+    exact step_swap s b a hab l
+  | trans p1 _ ih1 ih2 =>
+    intro hc s
+    rw [ih1 hc s]
+    exact ih2 ((p1.pairwise_iff (fun h => MdItem.comm_symm h)).1 hc) s
+
 section factor
 variable {ρ σ : Type} (alg : Alg ρ σ)
 
